@@ -4079,6 +4079,10 @@ class PyCdlib:
         self._managing_fp = True
         try:
             self._open_fp(fp)
+        except (struct.error, IndexError, KeyError, ValueError, ZeroDivisionError) as e:
+            # The data on the ISO led the parser astray.
+            fp.close()
+            raise pycdlibexception.PyCdlibInvalidISO('Failed to parse ISO: %s' % (str(e)))
         except Exception:
             fp.close()
             raise
@@ -4100,7 +4104,11 @@ class PyCdlib:
         if self._initialized:
             raise pycdlibexception.PyCdlibInvalidInput('This object already has an ISO; either close it or create a new object')
 
-        self._open_fp(fp)
+        try:
+            self._open_fp(fp)
+        except (struct.error, IndexError, KeyError, ValueError, ZeroDivisionError) as e:
+            # The data on the ISO led the parser astray.
+            raise pycdlibexception.PyCdlibInvalidISO('Failed to parse ISO: %s' % (str(e)))
 
     def get_file_from_iso(self, local_path, **kwargs):
         # type: (str, Union[str, int]) -> None
